@@ -24,6 +24,9 @@ func runC13(p *Prog, r *Report) {
 	if want("C13.2") {
 		ruleEntryGates(p, r, "C13.2")
 	}
+	if want("C13.13") {
+		ruleBlockIterRewind(p, r, "C13.13")
+	}
 	if want("C13.12") {
 		ruleWritersCopyKeys(p, r, "C13.12")
 	}
